@@ -147,9 +147,9 @@ Proof. repeat split; vm_compute; reflexivity. Qed.
    short payload -> i/o error), on success the fresh block holds the length, the bytes and the
    terminator and the stream is advanced past them; the interpreter never faults, so no read or write
    falls outside the block that was allocated. *)
-Theorem C09_source_read_string : forall sx m k, Forall byte sx ->
+Theorem C09_source_read_string : forall hc sx m k, Forall byte sx ->
   exists f0, forall f, (f0 <= f)%nat -> exists fin st,
-    callH prog_env f prog_sbdf_read_string [tok; tok] m k sx = OReturn (VInt st) fin /\
+    callC prog_env f prog_sbdf_read_string [tok; tok] m k sx hc = OReturn (VInt st) fin /\
     match read_string false None sx with
     | Ok (bytes, rest) =>
         if k =? 0 then st = SBDF_ERROR_OUT_OF_MEMORY /\ inb fin = m
@@ -161,11 +161,11 @@ Proof. exact read_string_source. Qed.
 Print Assumptions C09_source_read_string.
 
 Example C09_source_read_string_runs :
-  (match callH prog_env 100 prog_sbdf_read_string [tok; tok] [7] (-1) [2; 0; 0; 0; 104; 105; 9] with OReturn v fin => Some (v, inb fin, lookup strm_var (vars fin)) | _ => None end)
+  (match callC prog_env 100 prog_sbdf_read_string [tok; tok] [7] (-1) [2; 0; 0; 0; 104; 105; 9] [] with OReturn v fin => Some (v, inb fin, lookup strm_var (vars fin)) | _ => None end)
      = Some (VInt SBDF_OK, [7; 3; 0; 0; 0; 104; 105; 0], Some (VBytes [9])) /\
-  (match callH prog_env 100 prog_sbdf_read_string [tok; tok] [7] (-1) [255; 255; 255; 255; 1] with OReturn v _ => Some v | _ => None end) = Some (VInt SBDF_ERROR_INVALID_SIZE) /\
-  (match callH prog_env 100 prog_sbdf_read_string [tok; tok] [7] (-1) [255; 255; 255; 127; 1] with OReturn v _ => Some v | _ => None end) = Some (VInt SBDF_ERROR_OUT_OF_MEMORY) /\
-  (match callH prog_env 100 prog_sbdf_read_string [tok; tok] [7] (-1) [3; 0; 0; 0; 1; 2] with OReturn v _ => Some v | _ => None end) = Some (VInt SBDF_ERROR_IO).
+  (match callC prog_env 100 prog_sbdf_read_string [tok; tok] [7] (-1) [255; 255; 255; 255; 1] [] with OReturn v _ => Some v | _ => None end) = Some (VInt SBDF_ERROR_INVALID_SIZE) /\
+  (match callC prog_env 100 prog_sbdf_read_string [tok; tok] [7] (-1) [255; 255; 255; 127; 1] [] with OReturn v _ => Some v | _ => None end) = Some (VInt SBDF_ERROR_OUT_OF_MEMORY) /\
+  (match callC prog_env 100 prog_sbdf_read_string [tok; tok] [7] (-1) [3; 0; 0; 0; 1; 2] [] with OReturn v _ => Some v | _ => None end) = Some (VInt SBDF_ERROR_IO).
 Proof. repeat split; vm_compute; reflexivity. Qed.
 
 (* ---- composition over whole files (CorruptFacts.v).  For every well-formed table (any metadata,
